@@ -447,6 +447,43 @@ theorem present_key_hits_without_ttl (cfg : Cfg) (ops : List Op) (httl : cfg.ttl
     lookup (run cfg ops).stored k = some (e.val, e.ins) :=
   present_unexpired_key_hits cfg ops k e hf (by rw [httl]; rfl)
 
+/-- **A TTL the clock has not yet reached has expired nothing.** With `ttl = some d` and a clock reading
+`now ≤ d` (the clock starts at 0: no entry can be older than `now`) a present key always hits — whatever
+`d` is, in particular for the huge values for which `inserted_at + ttl` is not representable by `Instant`
+(`Duration::MAX`, `Duration::from_secs(u64::MAX)`, 2^63 s): "the deadline cannot be computed" means "it
+lies beyond every clock reading", i.e. *not expired*. -/
+theorem present_key_hits_while_clock_within_ttl (cfg : Cfg) (ops : List Op) (d : Nat) (httl : cfg.ttl = some d)
+    (hd : (run cfg ops).now ≤ d) (k : Nat) (e : Entry) (hf : find (run cfg ops).store k = some e) :
+    (storeGet cfg (run cfg ops).now (run cfg ops).tick (run cfg ops).store k).2 = some e.val ∧
+    lookup (run cfg ops).stored k = some (e.val, e.ins) :=
+  present_unexpired_key_hits cfg ops k e hf (by
+    rw [httl]; simp only [expired, decide_eq_false_iff_not]; omega)
+
+/-- The same, read off the history: as long as the `adv` steps of the history sum to at most the TTL. -/
+theorem present_key_hits_while_advances_within_ttl (cfg : Cfg) (ops : List Op) (d : Nat) (httl : cfg.ttl = some d)
+    (hd : advSum ops ≤ d) (k : Nat) (e : Entry) (hf : find (run cfg ops).store k = some e) :
+    (storeGet cfg (run cfg ops).now (run cfg ops).tick (run cfg ops).store k).2 = some e.val :=
+  (present_key_hits_while_clock_within_ttl cfg ops d httl (by rw [now_eq_advSum]; exact hd) k e hf).1
+
+/-- **`ttl(Duration::MAX)` never expires.** The header word `ttl=max` is read as `durMaxTicks` ticks —
+18 446 744 073 709 551 615 999 ms, resp. …999 999 µs — and until the clock has advanced by that much
+(5.8·10^11 years) a present key hits, exactly as without a TTL (`present_key_hits_without_ttl`). -/
+theorem max_ttl_never_expires (cfg : Cfg) (tickNs : Nat) (ops : List Op)
+    (httl : cfg.ttl = parseTtl tickNs (some "max")) (hd : advSum ops ≤ durMaxTicks tickNs)
+    (k : Nat) (e : Entry) (hf : find (run cfg ops).store k = some e) :
+    (storeGet cfg (run cfg ops).now (run cfg ops).tick (run cfg ops).store k).2 = some e.val :=
+  present_key_hits_while_advances_within_ttl cfg ops (durMaxTicks tickNs) (by rw [httl]; rfl) hd k e hf
+
+example : durMaxTicks 1000000 = 18446744073709551615999 ∧ durMaxTicks 1000 = 18446744073709551615999999 := by decide
+
+/-- The seeded history with a "forever" TTL: store at 0, a year of milliseconds later the key still hits
+(no inner call), for `Duration::MAX` and for 2^63 s alike. -/
+example :
+    let ops := [Op.arrive 1 7 0 ⟨0, .ok⟩, .poll 1 0, .adv 31536000000, .arrive 2 7 0 ⟨0, .ok⟩]
+    (run { max := 4, ttl := parseTtl 1000000 (some "max"), policy := .lru } ops).log.filter (· matches .innerCall ..) = [.innerCall 1 0] ∧
+    (run { max := 4, ttl := some (2 ^ 63 * 1000), policy := .lfu } ops).log.filter (· matches .innerCall ..) = [.innerCall 1 0] := by
+  decide
+
 /-- An absent key misses and the lookup leaves the store as it is (in every state). -/
 theorem absent_key_misses (cfg : Cfg) (now tick : Nat) (items : List Entry) (k : Nat) (hf : find items k = none) :
     storeGet cfg now tick items k = (items, none) := by
